@@ -201,6 +201,7 @@ type guardSpec struct {
 	fn   string
 	inst string
 	ops  func(fn *ssa.Function) (*Term, *Term, bool)
+	view func(fn *ssa.Function, f *Facts) *Facts // optional: how the path facts are read (pool: through the constructor model)
 }
 
 func guardTable(c *Checker) []guardSpec {
@@ -212,9 +213,9 @@ func guardTable(c *Checker) []guardSpec {
 		return buf{paramName(fn, 0)}.ch(), buf{paramName(fn, 1)}.ch(), true
 	}
 	for _, n := range c.discoverConversions() {
-		t = append(t, guardSpec{n, n, twoBufs})
+		t = append(t, guardSpec{n, n, twoBufs, nil})
 	}
-	t = append(t, guardSpec{"(*Buffer[D]).Append", "Buffer.Append", twoBufs})
+	t = append(t, guardSpec{"(*Buffer[D]).Append", "Buffer.Append", twoBufs, nil})
 	striped := func(fn *ssa.Function) (*Term, *Term, bool) {
 		bn, sn := findParams(fn)
 		if bn == "" || sn == "" {
@@ -222,14 +223,19 @@ func guardTable(c *Checker) []guardSpec {
 		}
 		return buf{bn}.ch(), mkAtom("len("+sn+")", intT), true
 	}
-	t = append(t, guardSpec{"ReadStriped", "ReadStriped", striped}, guardSpec{"WriteStriped", "WriteStriped", striped})
+	t = append(t, guardSpec{"ReadStriped", "ReadStriped", striped, nil}, guardSpec{"WriteStriped", "WriteStriped", striped, nil})
 	t = append(t, guardSpec{"(*PoolAllocator[T]).Put", "PoolAllocator.Put", func(fn *ssa.Function) (*Term, *Term, bool) {
 		if len(fn.Params) != 2 || !isBufferPtr(fn.Params[1].Type()) {
 			return nil, nil, false
 		}
-		p := paramName(fn, 0)
-		return specMul(mkAtom(p+".alloc.Capacity", intT), mkAtom(p+".alloc.Channels", intT)), buf{paramName(fn, 1)}.capT(), true
-	}})
+		// the pool's total capacity is what its New function allocates (constructor model); Put's conditions on
+		// the PoolAllocator's fields are read through the values the constructor gave them
+		pm := c.poolModel()
+		if !pm.ok || !pm.newOK || pm.newCap == nil {
+			return nil, nil, false
+		}
+		return pm.newCap, buf{paramName(fn, 1)}.capT(), true
+	}, func(fn *ssa.Function, f *Facts) *Facts { return c.poolModel().factsThrough(paramName(fn, 0), f) }})
 	return t
 }
 
@@ -257,8 +263,14 @@ func checkC15(c *Checker) {
 		found := false
 		okClean := true
 		detail := ""
+		view := func(f *Facts) *Facts {
+			if g.view != nil {
+				return g.view(fn, f)
+			}
+			return f
+		}
 		for _, o := range panicPaths(s) {
-			if hasFact(o.St.facts, ne) {
+			if hasFact(view(o.St.facts), ne) {
 				found = true
 				if m := mods(o); len(m) > 0 {
 					okClean = false
@@ -277,7 +289,7 @@ func checkC15(c *Checker) {
 		for _, o := range s.Outcomes {
 			for _, e := range mods(o) {
 				nEff++
-				if !hasFact(e.Facts, eq) {
+				if !hasFact(view(e.Facts), eq) {
 					okDom = false
 					ddetail = "effect not dominated by the guard: " + e.String()
 					where = c.effPos(e)
